@@ -9,6 +9,7 @@
 -/
 import DuckModel.Lemmas.CollectionsRelease
 import DuckModel.Props.C12Scripts
+import DuckModel.Props.C12ScriptsNatives
 
 namespace Duck
 open Duck.Coll
